@@ -178,6 +178,8 @@ impl Model {
                         self.truncated.insert(f.tag);
                     }
                 }
+                // the frames earlier hazards acted on are gone with the log
+                self.shape.clear();
                 if self.unflushed > 0 {
                     self.shape.insert("buffered-truncate");
                 }
@@ -220,11 +222,18 @@ impl Model {
         out
     }
 
-    pub fn shape_string(&self) -> String {
-        let mut s: Vec<&str> = self.shape.iter().copied().collect();
-        if self.segs.values().filter(|v| !v.is_empty()).count() >= 2 {
-            s.push("multi-segment");
+    /// Model-level facts about the history that matter for what recovery has to cope with.
+    pub fn shape_fields(&self) -> Vec<&'static str> {
+        let mut s: Vec<&'static str> = self.shape.iter().copied().collect();
+        let last = self.segs.keys().next_back().copied().unwrap_or(1);
+        if self.segs.iter().any(|(k, v)| *k != last && !v.is_empty()) {
+            s.push("closed-segment-frames");
         }
+        s
+    }
+
+    pub fn shape_string(&self) -> String {
+        let s = self.shape_fields();
         if s.is_empty() {
             "plain".into()
         } else {
